@@ -62,14 +62,20 @@ def run(repo, rep):
                 only=lambda e, s: e in (4, 8, 11, 12, 13, 14, 15, 16, 17) or 7 <= s <= 12)
     from ..provider_model import ProviderModel
     from ..fsm_model import FsmModel
-    from .c03 import drain_order_problems
+    from .c03 import buffer_anchor, drain_order_problems
+    from ..srcmodel import AnalysisError as _AE
     pm_ = ProviderModel(repo, FsmModel(repo))
     rep.analysed(pm_.method('_check_network'))
-    probs_, n_app_ = drain_order_problems(pm_.paths('_check_network'))
-    if n_app_ == 0:
-        probs_.append('no path appends the received bytes to the buffer')
-    rep.check(not probs_, 'C14.J4', 'dulprovider:DULServiceProvider._check_network:peer-pdu-before-close', pm_.method('_check_network').loc(),
-              'buffered PDUs are decoded before the socket is polled again', '; '.join(sorted(set(probs_))))
+    try:
+        buffer_anchor(repo)
+    except _AE as exc:
+        rep.undecided('C14.J4', str(exc))
+    else:
+        probs_, n_app_ = drain_order_problems(pm_.paths('_check_network'))
+        if n_app_ == 0:
+            probs_.append('no path appends the received bytes to the buffer')
+        rep.check(not probs_, 'C14.J4', 'dulprovider:DULServiceProvider._check_network:peer-pdu-before-close', pm_.method('_check_network').loc(),
+                  'buffered PDUs are decoded before the socket is polled again', '; '.join(sorted(set(probs_))))
 
     # ---------------------------------------------------------------- J1a: _establish
     est = acc.find_method('_establish')
